@@ -194,6 +194,15 @@ qb_ipcs_request_rate_limit(struct qb_ipcs_service *s,
 	qb_list_for_each_safe(pos, n, &s->connections) {
 
 		c = qb_list_entry(pos, struct qb_ipcs_connection, list);
+		if (c->state != QB_IPCS_CONNECTION_ACTIVE &&
+		    c->state != QB_IPCS_CONNECTION_ESTABLISHED) {
+			/*
+			 * Disconnected, only kept on the list by a reference:
+			 * its channels (with the flow control word) and its
+			 * descriptors are gone.
+			 */
+			continue;
+		}
 		qb_ipcs_connection_ref(c);
 
 		if (rl == QB_IPCS_RATE_OFF) {
@@ -233,18 +242,23 @@ void
 qb_ipcs_destroy(struct qb_ipcs_service *s)
 {
 	struct qb_ipcs_connection *c = NULL;
-	struct qb_list_head *pos;
-	struct qb_list_head *n;
+	struct qb_ipcs_connection *next;
 
 	if (s == NULL) {
 		return;
 	}
-	qb_list_for_each_safe(pos, n, &s->connections) {
-		c = qb_list_entry(pos, struct qb_ipcs_connection, list);
-		if (c == NULL) {
-			continue;
-		}
+	/*
+	 * The closed/destroyed callbacks may disconnect or release other
+	 * connections of this service, so a saved "next" pointer can go stale.
+	 * A referenced connection stays on the list: walk it holding a
+	 * reference on the current and on the next one.
+	 */
+	c = qb_ipcs_connection_first_get(s);
+	while (c) {
 		qb_ipcs_disconnect(c);
+		next = qb_ipcs_connection_next_get(s, c);
+		qb_ipcs_connection_unref(c);
+		c = next;
 	}
 	(void)qb_ipcs_us_withdraw(s);
 
@@ -608,11 +622,20 @@ qb_ipcs_connection_unref(struct qb_ipcs_connection *c)
 	}
 }
 
+static void
+_rerun_disconnect_job(void *data)
+{
+	struct qb_ipcs_connection *c = (struct qb_ipcs_connection *)data;
+
+	/* connection_closed() asked to be called again: this is that call */
+	c->closed_notified = QB_FALSE;
+	qb_ipcs_disconnect(c);
+}
+
 void
 qb_ipcs_disconnect(struct qb_ipcs_connection *c)
 {
 	int32_t res = 0;
-	qb_loop_job_dispatch_fn rerun_job;
 
 	if (c == NULL) {
 		return;
@@ -640,6 +663,17 @@ qb_ipcs_disconnect(struct qb_ipcs_connection *c)
 	}
 	if (c->state == QB_IPCS_CONNECTION_SHUTTING_DOWN) {
 		int scheduled_retry = 0;
+
+		if (c->closed_notified) {
+			/*
+			 * connection_closed() is running, or has accepted the
+			 * shutdown (the initial reference is gone, the object
+			 * only lingers because someone else holds a reference),
+			 * or the job queued below is going to call it again.
+			 */
+			return;
+		}
+		c->closed_notified = QB_TRUE;
 		res = 0;
 		if (c->service->serv_fns.connection_closed) {
 			res = c->service->serv_fns.connection_closed(c);
@@ -647,10 +681,8 @@ qb_ipcs_disconnect(struct qb_ipcs_connection *c)
 		if (res != 0) {
 			/* OK, so they want the connection_closed
 			 * function re-run */
-			rerun_job =
-			    (qb_loop_job_dispatch_fn) qb_ipcs_disconnect;
-			res = c->service->poll_fns.job_add(QB_LOOP_LOW,
-							   c, rerun_job);
+			res = c->service->poll_fns.job_add(QB_LOOP_LOW, c,
+							   _rerun_disconnect_job);
 			if (res == 0) {
 				/* this function is going to be called again.
 				 * so hold off on the unref */
@@ -781,6 +813,11 @@ qb_ipcs_dispatch_connection_request(int32_t fd, int32_t revents, void *data)
 		res = -EINVAL;
 		goto dispatch_cleanup;
 	}
+	/*
+	 * msg_process() may disconnect this connection (or destroy the whole
+	 * service): keep the object until we are done looking at it.
+	 */
+	qb_ipcs_connection_ref(c);
 
 	if (revents & POLLNVAL) {
 		qb_util_log(LOG_DEBUG, "NVAL conn (%s)", c->description);
@@ -834,6 +871,10 @@ qb_ipcs_dispatch_connection_request(int32_t fd, int32_t revents, void *data)
 	do {
 		res = _process_request_(c, IPC_REQUEST_TIMEOUT);
 
+		if (c->state != QB_IPCS_CONNECTION_ESTABLISHED) {
+			/* disconnected from inside msg_process(): the channels are gone */
+			res = -ESHUTDOWN;
+		}
 		if (res == -ESHUTDOWN) {
 			goto dispatch_cleanup;
 		}
@@ -876,6 +917,7 @@ dispatch_cleanup:
 	if (res != 0) {
 		qb_ipcs_disconnect(c);
 	}
+	qb_ipcs_connection_unref(c);
 	return res;
 }
 
